@@ -239,7 +239,7 @@ func (t FTy) Coq() string {
 	case TTimestamp:
 		return fmt.Sprintf("(TTimestamp %s)", t.List.Coq())
 	case TAny:
-		return "TAny"
+		return fmt.Sprintf("(TAny %s)", t.List.Coq())
 	case TObject:
 		return fmt.Sprintf("(TObject %s)", vh.BoolTerm(t.Flatten))
 	case TOneof:
